@@ -746,7 +746,9 @@ int reb_check_exit(struct reb_simulation* const r, const double tmax, double* la
     }
 #ifndef MPI
     if (!r->N){
-        if (!r->N_odes){
+        // The N-body ODE which the BS integrator creates for itself is not a user-defined ODE.
+        const int N_user_odes = r->N_odes - (r->ri_bs.nbody_ode!=NULL ? 1 : 0);
+        if (!N_user_odes){
             reb_simulation_warning(r,"No particles found. Will exit.");
             r->status = REB_STATUS_NO_PARTICLES; // Exit now.
         }else{
